@@ -72,6 +72,36 @@ class TracepointHandlerUpdateListener(ConfigUpdateListener):
         self._handler.new_config(new_config)
 
 
+class _UnknownThread:
+    """
+    Keep a thread unknown to the threading module that was unknown to it before we acted on one of its events.
+
+    threading.current_thread() - the logging module calls it for every record, so do plugins - registers a placeholder
+    for a thread it does not know, and never removes it. A thread that is ending releases its thread-local values
+    after it has been taken off the list: code traced there (a close() called by __del__) would bring the thread back
+    as a placeholder, which threading.enumerate() lists from then on and which cannot be joined.
+    """
+
+    def __enter__(self):
+        """Remember if the current thread is known."""
+        self.__ident = threading.get_ident()
+        try:
+            self.__unknown = self.__ident not in threading._active
+        except BaseException:
+            self.__unknown = False
+        return self
+
+    def __exit__(self, exception_type, exception_value, exception_traceback):
+        """Remove the placeholder that was registered since, if any."""
+        if self.__unknown:
+            try:
+                if isinstance(threading._active.get(self.__ident), threading._DummyThread):
+                    del threading._active[self.__ident]
+            except BaseException:
+                pass
+        return False
+
+
 class TriggerHandler:
     """
     This is the handler for the tracepoints.
@@ -214,7 +244,8 @@ class TriggerHandler:
         trigger_context = TriggerContext(self._config, self._push_service, frame, event, arg)
 
         if event in ["line", "return", "exception"] and self._callbacks.is_set:
-            self.__process_call_backs(trigger_context, arg, frame, event, file, line, function)
+            with _UnknownThread():
+                self.__process_call_backs(trigger_context, arg, frame, event, file, line, function)
 
         # return if we do not have any tracepoints
         if len(self._tp_config) == 0:
@@ -224,6 +255,11 @@ class TriggerHandler:
         if len(actions) == 0:
             return self.trace_call
 
+        with _UnknownThread():
+            self.__process_actions(trigger_context, actions, frame, event, file, line, function)
+        return self.trace_call
+
+    def __process_actions(self, trigger_context, actions, frame, event, file, line, function):
         try:
             with trigger_context:
                 for action in actions:
@@ -245,8 +281,6 @@ class TriggerHandler:
             # the callbacks refer back to the trigger context: it must not refer to them once they are handed over,
             # or it (and the frame) is only released by the garbage collector
             trigger_context.callbacks = []
-
-        return self.trace_call
 
     def __actions_for_location(self, event, file, line, function, frame):
         actions = []
